@@ -239,7 +239,7 @@ pub fn run(tier: Tier, replay: Option<String>) -> i32 {
     let ctx = crate::new_ctx("C02", tier, "exploration", &replay);
     ctx.set_rule("every set of disjoint non-empty regions over U one-byte cells (adjacent distinguished from merged) x bases {0, 0x1000, 2^32-3, 2^63-3, top of the address space} x every query method at every address of [base-2, base+U+2) plus {0,1,2^63,2^64-2,2^64-1} x every length/offset 0..=U+2 plus values around isize::MAX/usize::MAX; for GuestMemoryMmap (real mmaps; built, rotating with the layout, by one constructor call, by insertions from the back, or with extra regions that are removed again) and for a linear-search implementation that inherits all default methods (regions may end at 2^64-1); huge layouts (2^20..2^62 bytes, 1-byte and 2^61-byte holes) through raw regions, probed at region starts/ends +-1. Oracle: sorted interval list. A case is one (layout, address[, length]) query group; non-trivial = length >= 1 or an address-level query; distinct by construction.");
     ctx.assume("ranges of length 0 are executed but not judged (the statement quantifies over the bytes of the range)");
-    let u = if tier.thorough() { 9 } else { 7 };
+    let u = if tier.thorough() { 12 } else { 7 };
     let cells = cell_layouts(u);
     let lens: Vec<usize> = (0..=u + 2).chain(EXT.iter().cloned()).collect();
     if let Some(r) = ctx.replay_of.clone() {
